@@ -13,7 +13,7 @@ CONF = dict(
                 'hence every accepted string of ANY hrp and ANY admitted length with 1 or 2 substituted data-part symbols is rejected; wrong constant rejected; mixed case rejected; upper/lower decode alike; accepted strings have the canonical shape. '
                 'K: Decode/DecodeGeneric/Encode/ConvertBits against the model on valid, mutated, mixed-case, boundary and malformed strings (outcome classes ok/err/panic; the 14-character string that used to panic is an error since fix 4672273 and the model follows). '
                 'S: all 1-position substitutions of every accepted string, exhaustive 2-position substitution of sampled addresses (sliced over 16 case lines each), sampled pairs elsewhere, one-letter case flips, other-constant checksums; '
-                'for the standard shapes (lq/tlq/el, 86/105 symbols) S also substitutes inside the human-readable part and the separator (now theorems too: C15_detects_hrp_one / _two / _and_data, C15_no_separator_rejected); 3-/4-position patterns are exploration only. '
+                'for the standard shapes (lq/tlq/el, 86/105 symbols) S also substitutes inside the human-readable part and the separator (now theorems too: C15_detects_hrp_one / _two / _and_data, C15_no_separator_rejected); 3-/4-position patterns are exploration only. Every string is presented twice in a row to Decode (a rejected string must stay rejected, a valid one must answer the same data again), and the mixed-case, wrong-constant and a sample of the substitution clauses are also judged on the address decoders built on Decode (FromBlech32 twice, DecodeType, ToOutputScript, FromConfidential), with single-letter flips at every position of both base spellings and the two block patterns (upper prefix + lower data, lower prefix + upper data). '
                 'HRP theorems: a changed prefix xors one word G(hrp,hrp\') into the polymod before the data part; polymod_step(.,0) is injective on 60-bit words (C15_shift_injective, from a 32-case check of the generator low bits), so G<>0 (62+93+62 single and 961+2883+961 double substitutions enumerated) suffices for HRP-only errors at every length; HRP+data reduces to two kernel-enumerated tables (217 x 1000 entries each).',
 )
 
